@@ -370,7 +370,7 @@ PROPS["C01"] = {
                    "c01::c01_two_borrowed_results_alive", "c01::c01_group_partial_impl", "c01::c01_overridden_defaults_and_marker_scope",
                    # call equivalence also means: arguments arrive as a direct call would deliver them (address of an empty slice
                    # included), and an integer-coded result with a droppable payload is moved out exactly once, nothing on Err
-                   "c02::c02_args_slices", "c02::c02_args_mutable", "c02::c02_strings_multibyte", "c13e::c13e_roundtrip",
+                   "c02::c02_args_slices", "c02::c02_args_mutable", "c02::c02_strings_multibyte", "c02::c02_returns", "c13e::c13e_roundtrip",
                    "c06::c06_zero_sized_payload_with_destructor", "c01::c01_negative_twin"],
          "thorough_adds": ["c01::c01_reader_box_k4", "c01::c01_reader_ref_k4", "c01::c01_reader_arc_k4", "c01::c01_counter_box_k4",
                            "c01::c01_counter_mut_k4", "c01::c01_counter_ctxbox_k4", "c01::c01_consume_box_k3",
